@@ -41,6 +41,14 @@ Section Exact.
       tok_balance tk1 c watch = (tk', Some v1) /\
       v1 = v0 + dv.
 
+  (** the same with two watched holders (flow 2.2 after the repair: receiver and module) *)
+  Definition token_effect2 (tk tk' : tokens) (c caller : Z) (cl : call) (w1 d1 w2 d2 : Z) (res : cres) : Prop :=
+    exists tka v0 tkb e0 tk1 tkc v1 e1,
+      tok_balance tk c w1 = (tka, Some v0) /\ tok_balance tka c w2 = (tkb, Some e0) /\
+      tok_exec xcall MODULE tkb c caller cl = (tk1, res) /\ cr_ok res = true /\
+      tok_balance tk1 c w1 = (tkc, Some v1) /\ tok_balance tkc c w2 = (tk', Some e1) /\
+      v1 = v0 + d1 /\ e1 = e0 + d2.
+
   (** ** Primitives *)
   Lemma evm_call_inv s c caller cl s' r :
     evm_call xcall MODULE s c caller cl = (s', r) ->
@@ -331,28 +339,34 @@ Section Exact.
     bank_shift s s' (fun x y => ind ((x =? u) && bytes_eqb y d) (- a)) /\
     supply_shift s s' (fun y => ind (bytes_eqb y d) (- a)) /\ same_gates s s' /\ accts_plus s s' MODULE /\
     zmem MODULE (s_accts s) = true /\
-    exists res, token_effect (s_tokens s) (s_tokens s') (p_erc20 p) MODULE (CTransfer r a) r a res /\
+    exists res, token_effect2 (s_tokens s) (s_tokens s') (p_erc20 p) MODULE (CTransfer r a) r a MODULE (- a) res /\
                 unpack_bool (cr_ret res) = Some true /\ approval_check (cr_logs res) = Ok tt.
   Proof.
     unfold convert_coin_native_erc20.
     destruct (balance_of xcall MODULE s (p_erc20 p) r) as [s0 b0] eqn:B0.
-    destruct (send_coins s0 u MODULE d a) as [s1| |] eqn:S; cbn [obind]; try discriminate.
+    destruct (balance_of xcall MODULE s0 (p_erc20 p) MODULE) as [s0' e0] eqn:E0.
+    destruct (send_coins s0' u MODULE d a) as [s1| |] eqn:S; cbn [obind]; try discriminate.
     destruct (evm_call xcall MODULE s1 (p_erc20 p) MODULE (CTransfer r a)) as [s2 res] eqn:E.
     destruct (cr_ok res) eqn:O; cbn [negb]; [|discriminate].
     destruct (unpack_bool (cr_ret res)) as [[|]|] eqn:U; try discriminate.
     destruct (balance_of xcall MODULE s2 (p_erc20 p) r) as [s3 b1] eqn:B1.
     destruct b0 as [v0|]; [|discriminate]. destruct b1 as [v1|]; [|discriminate].
     destruct (v1 =? v0 + a) eqn:V; cbn [negb]; [|discriminate]. apply Z.eqb_eq in V.
-    destruct (burn_coins MODULE s3 d a) as [s4| |] eqn:BU; cbn [obind]; try discriminate.
+    destruct (balance_of xcall MODULE s3 (p_erc20 p) MODULE) as [s3' e1] eqn:E1.
+    destruct e0 as [w0|]; [|discriminate]. destruct e1 as [w1|]; [|discriminate].
+    destruct (w1 =? w0 - a) eqn:V2; cbn [negb]; [|discriminate]. apply Z.eqb_eq in V2.
+    destruct (burn_coins MODULE s3' d a) as [s4| |] eqn:BU; cbn [obind]; try discriminate.
     destruct (approval_check (cr_logs res)) as [[]| |] eqn:AP; cbn [obind]; try discriminate.
     intro H; inversion H; subst s4; clear H.
     apply balance_of_some in B0 as (A0 & C0 & tk0 & T0 & ->).
+    apply balance_of_some in E0 as (_ & _ & tk0' & T0' & ->).
     apply send_coins_inv in S as (VD & P & L & ->).
     apply evm_call_inv in E as [(_ & _ & _ & tk1 & T1 & ->)|[-> _]]; [|cbn in O; discriminate].
     apply balance_of_some in B1 as (_ & _ & tk2 & T2 & ->).
+    apply balance_of_some in E1 as (_ & _ & tk3 & T3 & ->).
     apply burn_coins_inv in BU as (_ & _ & L2 & L3 & ->).
-    rewrite sent_tokens, s_tokens_set in T1. rewrite s_tokens_set in T2.
-    destruct (sent_proj (set_tokens s tk0) u MODULE d a) as (Q1 & Q2 & Q3 & Q4 & Q5 & Q6 & Q7 & Q8 & Q9 & _ & _).
+    rewrite s_tokens_set in T0'. rewrite sent_tokens, s_tokens_set in T1. rewrite s_tokens_set in T2, T3.
+    destruct (sent_proj (set_tokens (set_tokens s tk0) tk0') u MODULE d a) as (Q1 & Q2 & Q3 & Q4 & Q5 & Q6 & Q7 & Q8 & Q9 & _ & _).
     cbn [s_bank s_supply set_tokens] in L, L2, L3. rewrite Q6 in L3. cbn [s_supply set_tokens] in L3.
     repeat split; try assumption.
     - intros x y. cbn [s_bank set_tokens set_supply set_bank]. rewrite bget_bset, !sent_bank.
@@ -361,8 +375,8 @@ Section Exact.
       cbn [s_supply set_tokens]. rewrite (bytes_eqb_sym d y). ind_cases.
     - intro x. cbn [set_tokens set_supply set_bank s_accts]. rewrite sent_accts. cbn [set_tokens s_accts]. reflexivity.
     - exists res. split; [|split; assumption].
-      exists tk0, v0, tk1, v1. unfold s_tokens at 2. cbn [s_mtok s_ext set_supply set_bank].
-      fold (s_tokens (set_tokens (set_tokens (sent (set_tokens s tk0) u MODULE d a) tk1) tk2)). rewrite s_tokens_set.
+      exists tk0, v0, tk0', w0, tk1, tk2, v1, w1. unfold s_tokens at 2. cbn [s_mtok s_ext set_supply set_bank].
+      match goal with |- context [(s_mtok ?st, s_ext ?st)] => fold (s_tokens st) end. rewrite s_tokens_set.
       repeat split; assumption.
   Qed.
 
@@ -541,7 +555,9 @@ Section Exact.
       supply_shift s s' (fun y => ind ((p_owner p =? 2) && bytes_eqb y d) (- a)) /\
       same_gates s s' /\ accts_plus s s' MODULE /\
       exists res,
-        token_effect (s_tokens s) (s_tokens s') c MODULE (if p_owner p =? 1 then CMint r a else CTransfer r a) r a res /\
+        (if p_owner p =? 1
+         then token_effect (s_tokens s) (s_tokens s') c MODULE (CMint r a) r a res
+         else token_effect2 (s_tokens s) (s_tokens s') c MODULE (CTransfer r a) r a MODULE (- a) res) /\
         (p_owner p = 2 -> unpack_bool (cr_ret res) = Some true /\ approval_check (cr_logs res) = Ok tt)
     else s' = delete_pair s p.
   Proof.
@@ -596,4 +612,4 @@ Section Exact.
 End Exact.
 
 Arguments bank_shift {X}. Arguments supply_shift {X}. Arguments same_gates {X}. Arguments accts_plus {X}.
-Arguments tok_balance {X}. Arguments token_effect {X}. Arguments sent {X}. Arguments cc_pair {X}. Arguments ce_pair {X}.
+Arguments tok_balance {X}. Arguments token_effect {X}. Arguments token_effect2 {X}. Arguments sent {X}. Arguments cc_pair {X}. Arguments ce_pair {X}.
